@@ -245,6 +245,7 @@ static Case genCase(Rng& rng, int maxNodes) {
 static double TOL = 1e-10;
 static bool closeEnough(double a, double b) {
     if (std::isnan(a) || std::isnan(b)) return false;
+    if (!std::isfinite(a) || !std::isfinite(b)) return a == b;   // inf <= TOL * inf would pass
     return std::fabs(a - b) <= TOL * std::max(1.0, std::max(std::fabs(a), std::fabs(b)));
 }
 
